@@ -177,12 +177,13 @@ Proof.
   destruct (fold_left (cstep (r_id r) r1') (o_upd st) (live s, zkeys s)) as [lc zkc] eqn:FL.
   cbn [fst snd] in CF, SZ, CZ. injection Cm as <- <-. cbn [rs_kind rs_zone rs_upd live zkeys version].
   (* what the journal says about the requester *)
-  pose proof (Jall (r_id r)) as Jr. rewrite <- Eid in Jr at 3 4 5.
+  pose proof (Jall (r_id r)) as Jr.
   assert (zone_of (r_id r) (o_live st) = r_zone r1') as Zr by (apply zone_of_find; exact Frq).
+  rewrite Zr, (zone_of_notlive _ _ Hl) in Jr.
   assert (al_get (r_id r) (o_upd st) = Some (r_zone r1')) as Ur.
   { destruct (al_get (r_id r) (o_rev st)) as [zr|].
-    - destruct Jr as [U _]. rewrite U. rewrite Eid. f_equal. exact Zr.
-    - exfalso. destruct Jr as [_ Z0]. rewrite Eid, Zr, (zone_of_notlive _ _ Hl) in Z0.
+    - destruct Jr as [U _]. exact U.
+    - exfalso. destruct Jr as [_ Z0].
       apply (mnz_land_nz _ _ Hn). apply msub_antisym; [rewrite <- Z0; exact S1|].
       apply msub_spec. intros i Hi. rewrite N.bits_0 in Hi. discriminate. }
   rewrite Ur in CF |- *.
